@@ -51,7 +51,7 @@ def confirm(src, sid, prop, demo_dir, checks):
     d = tempfile.mkdtemp(prefix="ivgseed-%s-" % sid)
     try:
         repo = os.path.join(d, "repo")
-        subprocess.run(["rsync", "-a", "--exclude", ".git", "/repo/", repo + "/"], check=True)
+        subprocess.run(["rsync", "-a", "--exclude", ".git", os.environ.get("SEED_SRC", "/repo").rstrip("/") + "/", repo + "/"], check=True)
         demos = [f for f in glob.glob(os.path.join(src, "*_test.go"))]
         if not demos:
             print("no demo *_test.go in", src); return 1
@@ -174,7 +174,7 @@ def sweep_one(sid, only=None, record=True):
     d = tempfile.mkdtemp(prefix="ivgsweep-%s-" % sid)
     try:
         repo = os.path.join(d, "repo")
-        subprocess.run(["rsync", "-a", "--exclude", ".git", "/repo/", repo + "/"], check=True)
+        subprocess.run(["rsync", "-a", "--exclude", ".git", os.environ.get("SEED_SRC", "/repo").rstrip("/") + "/", repo + "/"], check=True)
         rc, out = sh(["git", "apply", "--whitespace=nowarn", os.path.join(dst, "patch.diff")], repo)
         if rc != 0:
             return sid, {"error": "patch does not apply"}
